@@ -301,6 +301,17 @@ fn check_from(ctx: &mut Ctx, t: IT, v: &Big) {
         }
         None => ctx.fail(format!("<TwoFloat as NumCast>::from(n: {tn}) returned None")),
     }
+    // the pointer-sized routes follow the 64-bit ones on this host
+    if t == IT::U64 {
+        let n = v.to_u128().unwrap() as u64;
+        let us = guard(|| <TwoFloat as FromPrimitive>::from_usize(n as usize)).ok().flatten().map(Dd::of);
+        check!(ctx, us.map(|d| same_dd(d, r)) == Some(true), "FromPrimitive::from_usize({n}) = {:?} differs from TwoFloat::from(n as u64) = {}", us.map(|d| d.show()), r.show());
+    }
+    if t == IT::I64 {
+        let n = v.to_i128().unwrap() as i64;
+        let is = guard(|| <TwoFloat as FromPrimitive>::from_isize(n as isize)).ok().flatten().map(Dd::of);
+        check!(ctx, is.map(|d| same_dd(d, r)) == Some(true), "FromPrimitive::from_isize({n}) = {:?} differs from TwoFloat::from(n as i64) = {}", is.map(|d| d.show()), r.show());
+    }
     ctx.set_nontrivial(r.lo != 0.0 || t.bits() <= 32);
 }
 
@@ -535,7 +546,7 @@ fn c09_floats(ctx: &mut Ctx) {
 pub fn c09() -> Property {
     Property {
         id: "C09",
-        rule: "From: all values of i8/u8/i16/u16 (complete enumeration, each also converted back through every integer type), and for i32..u128 boundary values ±0..3, ±2^k±{0,1}, random bit lengths, the tie family m*2^k + 2^(k-1) - delta (remainder next to half an ulp of the f64 image, m odd/even) and sparse values; TryFrom/ToPrimitive/NumCast: valid x = B + d with B in {MIN, MAX, MAX+1, MIN-1, 0, -1, in-range} and d in {0, ±1, ±1/2, ±(1-2^-k), ±2^-k, ±2^k}, far out of range, small, and the non-finite pool; float routes on all classes. non-trivial = result with non-zero low word or type <= 32 bit (From); trunc(x) within 2 of a range end or |trunc(x)| <= 2 with a low word, or invalid x (TryFrom); distinct = distinct (type, value) pairs",
+        rule: "From: all values of i8/u8/i16/u16 (complete enumeration, each also converted back through every integer type), and for i32..u128 boundary values ±0..3, ±2^k±{0,1}, random bit lengths, (u64/i64 values also through FromPrimitive::from_usize/from_isize), the tie family m*2^k + 2^(k-1) - delta (remainder next to half an ulp of the f64 image, m odd/even) and sparse values; TryFrom/ToPrimitive/NumCast: valid x = B + d with B in {MIN, MAX, MAX+1, MIN-1, 0, -1, in-range} and d in {0, ±1, ±1/2, ±(1-2^-k), ±2^-k, ±2^k}, far out of range, small, and the non-finite pool; float routes on all classes. non-trivial = result with non-zero low word or type <= 32 bit (From); trunc(x) within 2 of a range end or |trunc(x)| <= 2 with a low word, or invalid x (TryFrom); distinct = distinct (type, value) pairs",
         assumptions: vec![],
         subchecks: vec![
             SubCheck { name: "from_small_exhaustive", kind: Kind::Enumerated { n: 512 + 2 * 65536 }, eval: c09_from_small, quick: 0, thorough: 0 },
